@@ -146,3 +146,15 @@ From DK.Proofs Require Import RealExp.
 Theorem C14_kernel_abc_any_real_exponent : forall x a b c xl xh, (xl = xh \/ 0 < abc_q (A:=R) x xl xh a) ->
   is_derive (fun t => abc_deriv (A:=R) t a b c xl xh) x (abc_hess (A:=R) x a b c xl xh).
 Proof. exact abc_deriv_derive_real. Qed.
+
+(* ---- tie T at class level: the hess methods regenerated from the NumPy source (Gen/Classes.v) are the model Hessians ---- *)
+From DK.Gen Require Import Classes.
+From DK.Proofs Require Import GenClasses.
+Theorem C14_source_device_hess : forall n (s : list R), Device_hess (A:=R) n s = dev_hess n.
+Proof. exact gen_device_hess. Qed.
+Theorem C14_source_cdevice_hess : forall n a b (s : list R), CDevice_hess (A:=R) n a b s = dev_hess n.
+Proof. exact gen_cdevice_hess. Qed.
+Theorem C14_source_idevice_hess : forall n a b c bnd (s : list R), IDevice_hess (A:=R) n a b c bnd s = idev_hess a b c bnd s.
+Proof. exact gen_idevice_hess. Qed.
+Theorem C14_source_idevice2_hess : forall n pl ph bnd (s : list R), IDevice2_hess (A:=R) n pl ph bnd s = idev2_hess pl ph bnd s.
+Proof. exact gen_idevice2_hess. Qed.
